@@ -152,3 +152,11 @@ Lemma ops_linear_example :
   length (snd (eval_const_fx [] (EBin Add (EBin Add (EBin Add (EInt 1) (EInt 2)) (EInt 3)) (EInt 4)))) = 3%nat /\
   esize (EBin Add (EBin Add (EBin Add (EInt 1) (EInt 2)) (EInt 3)) (EInt 4)) = 7%nat.
 Proof. split; reflexivity. Qed.
+
+(* the sleep(...) site never lets an evaluator exception out *)
+Lemma sleep_site_clean : forall c e k, resolve_sleep c e <> Raises k.
+Proof.
+  intros c e k. unfold resolve_sleep, catch_all. destruct (has_name e); [discriminate|].
+  destruct (eval_const c e) as [v| |]; try discriminate.
+  destruct (cast n_int v) as [[]| |]; discriminate.
+Qed.
